@@ -20,6 +20,7 @@ mod c04;
 mod c19;
 mod c15;
 mod c03;
+mod pool;
 mod alloc;
 
 #[global_allocator]
